@@ -33,7 +33,7 @@ is_reset = channel_common.is_reset
 PROFILE = {
     "C05": dict(mc=dict(quick=["mc_c05_quick_disc", "mc_c05_quick_fee"], thorough=["mc_c05_thorough"]),
                 gen=dict(MaxDisc=2, MaxAdds=4, MaxFees=3, MaxLen=100),
-                n=dict(quick=56, thorough=210), every=dict(quick=2, thorough=1)),
+                n=dict(quick=49, thorough=210), every=dict(quick=3, thorough=1)),
     "C04": dict(mc=dict(quick=["mc_c05_quick_disc", "mc_c05_quick_fee"], thorough=["mc_c05_thorough"]),
                 gen=dict(MaxDisc=2, MaxAdds=4, MaxFees=3, MaxLen=100),
                 n=dict(quick=98, thorough=700)),
